@@ -162,14 +162,14 @@ func Check() *core.Check {
 		},
 		Cases: func(tier string) int {
 			if tier == "thorough" {
-				return 48000
+				return 9000
 			}
 			return 900
 		},
 		MinConclusive: func(tier string) int { return 150 },
 		NumPinned:     len(pinned),
 		Binary:        "race",
-		CaseTimeoutS:  120,
+		CaseTimeoutS:  300,
 		Run:           run,
 		Post:          post,
 	}
